@@ -65,6 +65,11 @@ func loadWorld(repo string, contractDir string) (*World, error) {
 		w.Fset = p.Fset
 		sp := shortPkg(p.PkgPath)
 		w.Pkgs[sp] = p
+		if sp == "asset" {
+			if o := p.Types.Scope().Lookup("Snapshot"); o != nil {
+				snapshotType = o.Type()
+			}
+		}
 		for _, f := range p.Syntax {
 			fname := p.Fset.Position(f.Pos()).Filename
 			if strings.HasSuffix(fname, "_test.go") {
